@@ -11,6 +11,7 @@ import Mahotas.Properties.C01
 import Mathlib.Algebra.Order.Field.Basic
 import Mathlib.Algebra.Order.Field.Rat
 import Mathlib.Data.Rat.Cast.Order
+import Mahotas.Proofs.Modes
 open Mahotas Mahotas.C07
 
 /-- **C07-T1 (rank filter = element of the sorted samples).** For every border mode, image of any
@@ -526,3 +527,15 @@ example :
     (C01.dilateModel dt f (fp.map fun k => (negPos k, 0))).toList = [7, 7, 7, 5] ∧
     (allPos f.shape).map (rankSpecAt .nearest f fp 4) = [some 7, some 7, some 7, some 5] := by
   decide +kernel
+
+/-- **C07 (tie to the source, generated tables).** The code by which the models number a border mode is the code the
+current source gives it in both places: `mode2int` of `mahotas/_filters.py` (what the wrappers send) and
+`enum ExtendMode` of `mahotas/_filters.h` (what `fix_offset` switches on); neither table has an entry the models do
+not know. Both tables are regenerated from the source on every run. -/
+theorem C07_mode_codes_agree (m : Mahotas.Mode) :
+    (Mahotas.Generated.pyModes.lookup m.name = some m.code ∧ Mahotas.Generated.cppModes.lookup m.name = some m.code) ∧
+    Mahotas.Generated.pyModes.length = 6 ∧ Mahotas.Generated.cppModes.length = 6 :=
+  ⟨Mahotas.mode_codes_agree m, Mahotas.mode_tables_complete.1, Mahotas.mode_tables_complete.2.1⟩
+
+/-- non-vacuity: `reflect` is mode 2 in both tables -/
+example : Mahotas.Generated.pyModes.lookup (Mahotas.Mode.reflect).name = some 2 := by decide
